@@ -176,6 +176,58 @@ def _correspondence_once(ctx, rep=0):
             ctx.disagree('C16/' + e.kind, case, gdot, mdot, 'directional derivative: autograd %r vs dual-number model %r' % (gdot, mdot))
     structural(ctx, gen)
     cached_linear_grads(ctx, gen)
+    sample_grads(ctx, gen)
+
+
+def sample_grads(ctx, gen, report=None):
+    """differentiable sampling (reparameterised draws of a conditional base, alone and under a flow): the gradient of the
+    draws with respect to the context equals the gradient of the closed form `mean + std * noise` built from the same noise —
+    for 1, 2 and 5 draws per context row (1 is where `repeat_rows` returns a view)"""
+    from nflows.distributions import normal
+    from nflows.flows.base import Flow
+    import nflows.transforms as T
+    for shape in ([2], [3]):
+        D = shape[0]
+        for wrap in ('base', 'flow'):
+            for n in (1, 2, 5):
+                base = normal.ConditionalDiagonalNormal(shape)
+                obj = base if wrap == 'base' else Flow(T.PointwiseAffineTransform(shift=0.5, scale=2.0), base)
+                c = torch.randn(3, 2 * D, generator=gen, dtype=torch.float64).requires_grad_(True)
+                seed = int(torch.randint(0, 2 ** 31 - 1, (1,), generator=gen))
+                why = ''
+                try:
+                    torch.manual_seed(seed)
+                    s = obj.sample(n, c)
+                    w = torch.randn(s.shape, generator=gen, dtype=torch.float64)
+                    g, = torch.autograd.grad((s * w).sum(), c)
+                    c2 = c.detach().clone().requires_grad_(True)
+                    torch.manual_seed(seed)
+                    noise = torch.randn(3 * n, D, dtype=torch.float64)
+                    mean, logstd = c2[:, :D], c2[:, D:]
+                    ref = (mean.repeat_interleave(n, 0) + torch.exp(logstd).repeat_interleave(n, 0) * noise).reshape(3, n, D)
+                    if wrap == 'flow':
+                        ref = (ref - 0.5) / 2.0          # Flow.sample applies the inverse transform
+                    if not torch.allclose(s.detach(), ref.detach(), rtol=1e-9, atol=1e-11):
+                        raise RuntimeError('reference draw differs (noise stream changed)')   # then only finiteness is checked
+                    g2, = torch.autograd.grad((ref * w).sum(), c2)
+                    if not torch.isfinite(g).all():
+                        why = 'gradient of the draws w.r.t. the context is not finite'
+                    elif not torch.allclose(g, g2, rtol=1e-8, atol=1e-10):
+                        why = 'gradient of the draws w.r.t. the context differs from that of mean + std * noise (max diff %.3g)' % (g - g2).abs().max().item()
+                except RuntimeError as ex:
+                    if 'reference draw differs' in str(ex):
+                        why = ''
+                    else:
+                        why = 'raised %r' % (ex,)
+                except Exception as ex:
+                    why = 'raised %r' % (ex,)
+                case = {'class': 'ConditionalDiagonalNormal', 'wrap': wrap, 'num_samples': n, 'event': shape}
+                if report is None:
+                    ctx.case(key=('sample-grads', wrap, n, D), branch='structural/sample-grads', nontrivial=True)
+                    if why:
+                        ctx.disagree('C16/structural', case, why, 'gradient of mean + std * noise', why)
+                elif why:
+                    report('sample(%d, context) of %s: %s' % (n, wrap, why), case, {'class': 'ConditionalDiagonalNormal', 'symptom': 'sample-grad', 'num_samples': n})
 
 
 def structural(ctx, gen):
@@ -243,6 +295,7 @@ def cached_linear_grads(ctx, gen):
 
 def search(ctx):
     """central finite differences of the implementation in float64 away from kinks"""
+    sample_grads(ctx, torch.Generator().manual_seed(ctx.seed + 161), report=lambda what, case, match: ctx.fail(what, case, match=match))
     gen = torch.Generator().manual_seed(ctx.seed + 1616)
     for e in oracles.all_entries('quick'):
         try:
